@@ -385,7 +385,7 @@ func Run(c *core.Ctx) {
 			n := 5 + rng.Intn(25)
 			var subs []Sub
 			for k := 0; k < n; k++ {
-				g := []string{"g1", "g1", "g2", "g3", "par", "g4", "g4"}[rng.Intn(7)]
+				g := []string{"g1", "g1", "g2", "g3", "par", "g4", "g4", "g5", "g5"}[rng.Intn(9)]
 				kind := subKinds[rng.Intn(len(subKinds))]
 				if g == "par" && kind == "withgroup" {
 					kind = "withres"
